@@ -60,13 +60,19 @@ func verifHavocSerializer(s *Serializer) {
 // verifHavocDst returns a destination whose slices hold stale data; its tape capacity is either
 // too small (forcing reallocation) or large enough to be reused.
 func verifHavocDst(T int) *ParsedJson {
+	// 0: too small, 1: large and in use to its full capacity, 2: large capacity (arbitrary contents from an even earlier use)
+	// of which the last use left only one word in use
 	n := 2
-	if verifChoice("stale.dst.big", 2) == 1 {
+	v := verifChoice("stale.dst.big", 3)
+	if v >= 1 {
 		n = T + 2
 	}
 	d := &ParsedJson{Tape: make([]uint64, n), Strings: &TStrings{B: nondetBytes("stale.dst.strings", 2)}, Message: nondetBytes("stale.dst.msg", 6)}
 	for i := range d.Tape {
 		d.Tape[i] = nondetU64("stale.dst.tape")
+	}
+	if v == 2 {
+		d.Tape = d.Tape[:1]
 	}
 	return d
 }
